@@ -299,7 +299,11 @@ Inductive op :=
 
 Record state := mkS { s_heap : heap; s_vars : list nat }.
 Definition empty_obj : obj := mkO None true [].
-Definition init : state := mkS [empty_obj; empty_obj; empty_obj] [0; 1; 2]%nat.
+(* address 0 is Object.prototype (its built-in members are non-enumerable and outside the four
+   names, so it starts without modelled properties); the three variables hold fresh objects {}
+   inheriting from it; variable 3 is Object.prototype itself *)
+Definition plain_obj : obj := mkO (Some 0%nat) true [].
+Definition init : state := mkS [empty_obj; plain_obj; plain_obj; plain_obj] [1; 2; 3; 0]%nat.
 
 Definition var (s : state) (i : nat) : nat := nth i (s_vars s) 0%nat.
 Definition the_obj (s : state) (a : nat) : obj := nth a (s_heap s) empty_obj.
@@ -405,7 +409,7 @@ Definition obs_obj (h : heap) (a : nat) : list Z :=
     pack (own_keys o); pack (own_names o); pack (forin (length h) h a []) ].
 
 Definition snapshot (s : state) : list Z :=
-  flat_map (fun i => obs_obj (s_heap s) (var s i)) [0; 1; 2]%nat.
+  flat_map (fun i => obs_obj (s_heap s) (var s i)) [0; 1; 2; 3]%nat.
 
 (* a history: after every operation, its result followed by the snapshot *)
 Fixpoint run (s : state) (ops : list op) : list (list Z) :=
